@@ -158,3 +158,104 @@ pub fn case_fields(d: &design::Design) -> Vec<S> {
     }
     vec![d.to_sexp(), S::k1("builds", S::list(builds))]
 }
+
+// ------------------------------------------------------------------------------------------ directed cases
+
+fn poly(pts: &[(i64, i64)]) -> Vec<design::Pt> {
+    pts.iter().map(|(x, y)| design::Pt { x: *x as f64, y: *y as f64, typ: design::PtType::Line }).collect()
+}
+
+fn comp(base: &str, m: [f64; 4], dx: f64, dy: f64) -> design::Comp {
+    design::Comp { base: base.into(), t: [m[0], m[1], m[2], m[3], dx, dy] }
+}
+
+const ID: [f64; 4] = [1.0, 0.0, 0.0, 1.0];
+
+/// One weight axis (default at the minimum), masters at 400 and 900, optional sparse layer master at 650.
+fn two_master(glyphs: Vec<(&str, design::GlyphDef)>, at_max: Vec<(&str, design::GlyphDef)>, sparse: Vec<(&str, design::GlyphDef)>) -> design::Design {
+    use design::*;
+    let mut d = Design { family: "Verif C12".into(), upem: 1000, ..Default::default() };
+    d.axes.push(AxisDef { tag: "wght".into(), name: "Weight".into(), min: 400.0, default: 400.0, max: 900.0, map: vec![] });
+    let info: Vec<(String, f64)> = vec![("ascender".into(), 800.0), ("descender".into(), -200.0), ("xHeight".into(), 500.0), ("capHeight".into(), 700.0)];
+    let mut m0 = Master { name: "M0".into(), style: "Regular".into(), loc: vec![400.0], info: info.clone(), ..Default::default() };
+    let mut m1 = Master { name: "M1".into(), style: "Black".into(), loc: vec![900.0], info: info.clone(), ..Default::default() };
+    for (n, g) in &glyphs { m0.glyphs.insert(n.to_string(), g.clone()); m1.glyphs.insert(n.to_string(), g.clone()); }
+    for (n, g) in &at_max { m1.glyphs.insert(n.to_string(), g.clone()); }
+    d.glyph_order = Some(glyphs.iter().map(|(n, _)| n.to_string()).collect());
+    for (i, (n, _)) in glyphs.iter().enumerate() { d.codepoints.insert(n.to_string(), vec![0x61 + i as u32]); }
+    d.masters.push(m0);
+    d.masters.push(m1);
+    if !sparse.is_empty() {
+        let mut s = Master { name: "S2".into(), style: "Sparse".into(), loc: vec![650.0], sparse: true, ..Default::default() };
+        for (n, g) in &sparse { s.glyphs.insert(n.to_string(), g.clone()); }
+        d.masters.push(s);
+    }
+    d
+}
+
+/// Hand-written designs: minimal reproductions of the recorded findings and of behaviours the random generator
+/// reaches rarely.
+pub fn directed(i: usize) -> design::Design {
+    use design::GlyphDef;
+    let sq = || GlyphDef { advance: 500.0, contours: vec![poly(&[(0, 0), (100, 0), (100, 100), (0, 100)])], ..Default::default() };
+    let tri = || GlyphDef { advance: 600.0, contours: vec![poly(&[(10, 20), (300, 40), (120, 260)])], ..Default::default() };
+    let of = |adv: f64, comps: Vec<design::Comp>| GlyphDef { advance: adv, components: comps, ..Default::default() };
+    match i % 6 {
+        // 0: nested scales 3/2 · 3/2 = 9/4: flattening composes a 2x2 that F2Dot14 cannot hold
+        0 => two_master(vec![
+            ("a", sq()),
+            ("b", of(500.0, vec![comp("a", [1.5, 0.0, 0.0, 1.5], 0.0, 0.0)])),
+            ("c", of(500.0, vec![comp("b", [1.5, 0.0, 0.0, 1.5], 10.0, 20.0)])),
+        ], vec![], vec![]),
+        // 1: the nested component `b` has an intermediate (sparse layer) master that its user `c` does not have
+        1 => two_master(vec![
+            ("a", sq()),
+            ("b", of(500.0, vec![comp("a", ID, 100.0, 0.0)])),
+            ("c", of(500.0, vec![comp("b", ID, 0.0, 50.0)])),
+        ], vec![("b", of(500.0, vec![comp("a", ID, 200.0, 0.0)]))],
+           vec![("b", of(500.0, vec![comp("a", ID, 190.0, 0.0)]))]),
+        // 2: the same base reached twice with the same accumulated transform while a mixed glyph is decomposed (the
+        //    `visited` set of convert_components_to_contours; b and c are still composites at that time)
+        2 => two_master(vec![
+            ("a", sq()),
+            ("b", of(500.0, vec![comp("a", ID, 10.0, 0.0)])),
+            ("c", of(500.0, vec![comp("a", ID, 10.0, 0.0)])),
+            ("d", GlyphDef { advance: 500.0, contours: vec![poly(&[(300, 0), (400, 0), (350, 90)])],
+                             components: vec![comp("b", ID, 0.0, 0.0), comp("c", ID, 0.0, 0.0)], ..Default::default() }),
+        ], vec![], vec![]),
+        // 3: flips through a non-exported composite into a mixed glyph
+        3 => {
+            let mut d = two_master(vec![
+                ("a", tri()),
+                ("b", of(600.0, vec![comp("a", [-1.0, 0.0, 0.0, 1.0], 400.0, 0.0)])),
+                ("c", GlyphDef { advance: 700.0, contours: vec![poly(&[(500, 0), (650, 0), (650, 90), (500, 90)])],
+                                 components: vec![comp("b", [1.0, 0.0, 0.0, -1.0], 30.0, 300.0), comp("a", [0.0, 1.0, -1.0, 0.0], 350.0, 10.0)], ..Default::default() }),
+                ("d", of(650.0, vec![comp("c", [0.5, 0.0, 0.0, 0.5], 5.0, 5.0), comp("b", ID, 0.0, -100.0)])),
+            ], vec![], vec![]);
+            d.skip_export.push("b".into());
+            d
+        }
+        // 5: as 2, with a third (sparse layer) master for b, c, d: the enumeration indices of the duplicate visits can
+        //    coincide at some locations and differ at others
+        5 => {
+            let b = || of(500.0, vec![comp("a", ID, 10.0, 0.0)]);
+            let dd = || GlyphDef { advance: 500.0, contours: vec![poly(&[(300, 0), (400, 0), (350, 90)])],
+                             components: vec![comp("b", ID, 0.0, 0.0), comp("c", ID, 0.0, 0.0)], ..Default::default() };
+            two_master(vec![("a", sq()), ("b", b()), ("c", b()), ("d", dd())], vec![],
+                       vec![("b", b()), ("c", b()), ("d", dd())])
+        }
+        // 4: a static design (no axes at all would need a bare UFO; here both masters are equal), depth 4 chain of
+        //    translate-only components with half-integer-free offsets
+        _ => two_master(vec![
+            ("a", tri()),
+            ("b", of(600.0, vec![comp("a", ID, 11.0, 7.0)])),
+            ("c", of(600.0, vec![comp("b", ID, -3.0, 9.0), comp("a", ID, 300.0, 0.0)])),
+            ("d", of(600.0, vec![comp("c", ID, 1.0, 1.0)])),
+            ("e", of(600.0, vec![comp("d", ID, 2.0, -5.0), comp("b", ID, 50.0, 50.0)])),
+        ], vec![("b", of(610.0, vec![comp("a", ID, 31.0, -7.0)]))], vec![]),
+    }
+}
+
+pub fn run_directed(args: &Args) {
+    crate::run_cases("c12dir", args, move |i| case_fields(&directed(i)));
+}
